@@ -761,6 +761,23 @@ func (e *Env) callExpr(n *ECall) Val {
 				"(= (select (kv_has (select (w_kv " + w1 + ") qs!s)) qs!k) (select (kv_has (select (w_kv " + w0 + ") qs!s)) qs!k)) " +
 				"(= (select (kv_val (select (w_kv " + w1 + ") qs!s)) qs!k) (select (kv_val (select (w_kv " + w0 + ") qs!s)) qs!k)))) " +
 				":pattern ((select (kv_has (select (w_kv " + w1 + ") qs!s)) qs!k)) :pattern ((select (kv_val (select (w_kv " + w1 + ") qs!s)) qs!k)))))")
+		case "sigAddr":
+			// sigAddr(hash, sig): the address of the public key recovered from (hash, sig) (the term the executor
+			// produces for crypto.PubkeyToAddress(*crypto.SigToPub(hash, sig)))
+			if tp := fc.W.typesPkg("github.com/ethereum/go-ethereum/crypto"); tp != nil {
+				if o, ok := tp.Scope().Lookup("SigToPub").(*types.Func); ok {
+					if pt, ok := o.Type().(*types.Signature).Results().At(0).Type().Underlying().(*types.Pointer); ok {
+						ks := fc.B.SortOf(pt.Elem())
+						fc.B.DeclFun("sig_pubkey", []string{"String", "String"}, ks)
+						fc.B.DeclFun("pub_addr", []string{ks}, "String")
+						return strVal("(pub_addr (sig_pubkey " + str(0) + " " + str(1) + "))")
+					}
+				}
+			}
+			return e.fail("sigAddr: go-ethereum crypto.SigToPub not available")
+		case "hexAddr":
+			fc.B.DeclFun("hex_to_addr", []string{"String"}, "String")
+			return strVal("(hex_to_addr " + str(0) + ")")
 		case "addressModule":
 			fc.B.DeclFun("address_module", []string{"String", "String"}, "String")
 			return strVal("(address_module " + str(0) + " " + str(1) + ")")
@@ -815,6 +832,16 @@ func (e *Env) callExpr(n *ECall) Val {
 				return e.fail("slice1: untyped element")
 			}
 			return Val{S: "(Slice " + v.S + ")", T: "(mkS false 1 (store ((as const (Array Int " + v.S + ")) " + fc.zero(v.Typ) + ") 0 " + v.T + "))", Typ: types.NewSlice(v.Typ)}
+		case "unmarshalAs":
+			// unmarshalAs(bz, T): the value of message type T that the codec decodes from bz (the term the
+			// executor produces for cdc.Unmarshal(bz, &x))
+			srt, typ := e.typeByName(n.Args[1].String())
+			if typ == nil {
+				return e.fail("unmarshalAs: unknown type %s", n.Args[1].String())
+			}
+			fc.B.DeclFun("marshal_"+sanitize(srt), []string{srt}, "String")
+			fc.B.DeclFun("unmarshal_"+sanitize(srt), []string{"String"}, srt)
+			return fc.mkVal(typ, "(unmarshal_"+sanitize(srt)+" "+str(0)+")")
 		case "marshalOf":
 			v := argv(0)
 			fn := "marshal_" + sanitize(v.S)
